@@ -401,13 +401,14 @@ def life_model_line(l):
         return l
     hdr, body = l.split("|", 1)
     ops = [o.split() for o in body.split(";") if o.strip()]
-    # (op 12 with a third field 1 casts back through `From` instead of `upcast()`: the same model step)
-    return hdr + "| " + " ; ".join(" ".join(["5"] + o[1:] if o[0] == "21" else o[:2] if o[0] == "12" else o) for o in ops)
+    # (op 12 with a third field 1 casts back through `From` instead of `upcast()`, ops 13/14 with a third field 1 go through the fallible consuming
+    # method: the same model steps)
+    return hdr + "| " + " ; ".join(" ".join(["5"] + o[1:] if o[0] == "21" else o[:2] if o[0] in ("12", "13", "14") else o) for o in ops)
 
 
 def life_cases(rng, tier, with_borrowed=True):
     cases = ["106 | 0 1 ; 1 0 ; 2 0 ; 2 0 ; 7 1 ; 4 0 ; 1 3 ; 7 3", "106 | 0 1 ; 5 0", "106 | 0 1 ; 2 0 ; 21 0 ; 1 1", "106 | 0 3 ; 21 0", "106 | 8 5 ; 6 0 ; 6 1 ; 7 0", "106 | 10 7 1 ; 11 0 ; 6 1 ; 12 1 ; 11 3",
-             "106 | 10 7 0 ; 11 0", "106 | 13 4 ; 14 5", "106 | 0 2 ; 2 0 ; 5 0 ; 1 1", "106 | 15 -77 ; 1 0 ; 7 0", "106 | 15 -77 ; 15 -77 ; 7 1",
+             "106 | 10 7 0 ; 11 0", "106 | 13 4 ; 14 5", "106 | 13 4 1 ; 14 5 1 ; 13 6 ; 14 7 1", "106 | 0 2 ; 2 0 ; 5 0 ; 1 1", "106 | 15 -77 ; 1 0 ; 7 0", "106 | 15 -77 ; 15 -77 ; 7 1",
              "106 | 10 7 1 ; 16 0", "106 | 10 7 0 ; 17 0 ; 1 1", "106 | 0 4 ; 18 0 ; 18 0 ; 7 1 ; 7 0 ; 7 2", "106 | 0 4 ; 20 0 ; 11 1 ; 6 2 ; 7 0 ; 16 3", "106 | 0 4 ; 20 0 ; 20 0 ; 17 1 ; 7 0", "106 | 10 7 1 ; 19 0 ; 11 0 ; 19 2 ; 7 1", "106 | 10 7 1 ; 11 0 ; 6 1 ; 16 1 ; 17 2", "106 | 10 7 1 ; 11 0 ; 12 1 ; 16 2", "106 | 10 7 1 ; 11 0 ; 12 1 1 ; 1 2 ; 16 2", "106 | 10 9 1 ; 11 0 ; 6 1 ; 12 1 1 ; 12 2 1 ; 7 3"]
     if with_borrowed:
         cases.append("106 | 9 3 ; 3 0 ; 3 0 ; 3 0")
@@ -436,7 +437,7 @@ def life_cases(rng, tier, with_borrowed=True):
                     ops.append([c, nid]); kinds.append({0: "N", 8: "C", 9: "R"}[c])
                 continue
             if r < 24:
-                ops.append([rng.choice([13, 14]), 50 + nid]); nid += 1
+                ops.append([rng.choice([13, 14]), 50 + nid] + ([1] if rng.chance(1, 2) else [])); nid += 1
                 continue
             if r < 32:   # ill-targeted stream
                 ops.append([rng.choice([1, 2, 4, 5, 6, 7, 11, 12, 16, 17, 18, 19, 20, 21]), rng.range(0, len(kinds))])
@@ -927,6 +928,18 @@ def layout_cases(rng, tier):
         bw = [method_row(1, 16 * 1, rs, 0, []), method_row(0, 16 * 2, 1, 2, [])]
         r = copy.deepcopy(bw); r[0][3] = 3                     # returned element type u8 -> u64
         cases.append(xline(0, bw, 0, r, 1))
+    # DIFFERENT RUST SPELLINGS of one C-visible interface must compare Valid: `&str` and `&[u8]` are both CSliceRef<u8>, `impl Into<u32>` and `u32` are both
+    # u32, `Option<u32>` and `std::option::Option<u32>` both COption<u32>, `Result<u32, u8>` and `std::result::Result<u32, u8>` both CResult<u32, u8>
+    for (sa, la), (sb, lb) in (((3, 0), (1, 0)), ((6, 2), (0, 2)), ((4, 2), (14, 2)), ((12, 2), (13, 2))):
+        for second in ([], [(0, 3)]):
+            a = [method_row(0, 16 * 1, 1, 2, [(sa, la)] + second), method_row(1, 16 * 2, 0, 0, [(0, 2)])]
+            b = [method_row(0, 16 * 1, 1, 2, [(sb, lb)] + second), method_row(1, 16 * 2, 0, 0, [(0, 2)])]
+            cases.append(xline(0, a, 0, b, 0))
+            cases.append(xline(0, b, 0, a, 0))
+    for (ra, rb) in ((3, (2, 0)), (4, (14, None)), (11, (13, None))):      # returns: &str / &[u8] ; Option / std::option::Option ; Result / std::result::Result
+        a = [method_row(0, 16 * 1, ra, 0 if ra == 3 else 2, [(0, 2)])]
+        b = [method_row(0, 16 * 1, rb[0], 0 if ra == 3 else 2, [(0, 2)])]
+        cases.append(xline(0, a, 0, b, 0))
     # the same canonical edits inside a trait that is a MANDATORY (role 0) / OPTIONAL (role 1) member of a group: the group's verdict must follow
     for c in [x for x in cases if x.startswith("20 ") and len(x.split("|")[0].split()) == 4]:
         h, body = c.split("|", 1)
